@@ -161,10 +161,11 @@ class Ctx:
                     continue
         if last is None and check:
             raise Inconclusive("harness printed no summary: vh %s\n%s" % (" ".join(map(str, args)), p.stdout[-2000:]))
-        if last is not None:
-            last["_wall"] = time.time() - t
-            last["_stderr"] = p.stderr[-20000:]
-            last["_rc"] = p.returncode
+        if last is None:
+            last = {"_crashed": True}       # only reachable with check=False
+        last["_wall"] = time.time() - t
+        last["_stderr"] = p.stderr[-20000:]
+        last["_rc"] = p.returncode
         return last
 
     # ------------------------------------------------------------------ TLC
